@@ -79,9 +79,14 @@ package cgroup
 //@ func pkg/cgroup.nextRandom
 //@   trusted "decimal text of a random 31-bit number"
 //@   pure
-//@ func pkg/cgroup.prefixAndSuffix
-//@   trusted "splits the pattern at its last *"
-//@   pure
+// the pattern of Random: a name with a path separator is refused, so a random group is always a direct
+// child of the handle it was asked from (C20: nested under its parent); split at the last *
+//@ func pkg/cgroup.prefixAndSuffix props C20
+//@   arith int
+//@   assigns nothing
+//@   ensures result.2 == nil ==> forall k int :: 0 <= k && k < len(pattern) ==> pattern[k] != '/'
+//@   ensures result.2 == nil ==> len(result.0) + len(result.1) <= len(pattern)
+//@   loop 0: invariant 0 <= i && i <= len(pattern) && forall k int :: 0 <= k && k < i ==> pattern[k] != '/'
 //@ func pkg/cgroup.randomBuild props C20
 //@   arith int
 //@   requires build != nil
@@ -90,6 +95,7 @@ package cgroup
 //@   loop 0: invariant 0 <= try && try < 10000
 
 //@ global pkg/cgroup.ErrNotInitialized props C20: invariant ErrNotInitialized != nil
+//@ global pkg/cgroup.errPatternHasSeparator props C20: invariant errPatternHasSeparator != nil
 
 // ---- units table (C20): which control file each reading comes from / each limit goes to, and the scaling ----
 //@ func pkg/cgroup.readFile
